@@ -33,7 +33,7 @@ for id,(det,stren,cl) in sorted(first.items()):
     json.dump(meta,open(d+'/meta.json','w'),indent=1,ensure_ascii=False)
     rows.append("| %s | %s | %s | %s |"%(id,what.replace('|','/'),meta['detection'].replace('|','/'),cl))
 for id,det,cl in [('C09-w7-m1','MISSED until wave 8 (needs one swap! to lose a thousand compare-and-set rounds in a row); caught after: the siege schedule of DESIGN.md 5.1','C09.spurious-error'),
-                  ('C09-w7-m3','MISSED until wave 8 (needs a memoize table of more than 512 entries and an eviction between the two derefs of a concurrent lookup); caught after: the flood of DESIGN.md 5.1 (a few reports per quick run)','C09.library / memoize')]:
+                  ('C09-w7-m3','MISSED until wave 8 (needs a memoize table of more than 512 entries and an eviction between the two derefs of a concurrent lookup); since the flood of DESIGN.md 5.1 caught marginally (1-3 reports per undisturbed quick run)','C09.library / memoize')]:
     f='/verif/seeded/%s/meta.json'%id
     m=json.load(open(f)); m['detection']=det; m['clauses_reporting_it']=cl
     json.dump(m,open(f,'w'),indent=1,ensure_ascii=False)
